@@ -49,6 +49,14 @@ def case_strategy(draw):
             act = "drop"
         arg = draw(st.integers(1, 5)) if act in ("delay", "hold") else (draw(st.integers(0, 8 * seg - 1)) if act == "flip" else 0)
         faults.append([kind, occ, act, arg])
+    if draw(st.integers(0, 5)) == 0 and nseg >= 3 and sim.eff_mode(cfg) == "ACK":
+        # adversarial shape: the Metadata PDU is overtaken by k File Data PDUs (but not by the EOF) and one of the File Data
+        # PDUs that arrive before it - or right after it - is lost; optionally the first NAKs are lost as well
+        k = draw(st.integers(2, min(nseg - 1, 6)))
+        faults = [["MD", 0, "delay", k], ["FD", draw(st.integers(0, k)), "drop", 0]]
+        if draw(st.booleans()):
+            faults += [["NAK", i, "drop", 0] for i in range(draw(st.integers(1, 3)))]
+        faults += [x for x in draw(S.fault_schedules(max_faults=2, actions=("drop", "dup", "delay")))]
     case = {"cfg": cfg, "file": f, "faults": faults}
     if not weak and draw(st.integers(0, 4)) == 0:
         case["fs_rejects"] = {"writes": sorted(set(draw(st.lists(st.integers(0, nseg + 4), min_size=1, max_size=3))))}
